@@ -294,6 +294,17 @@ def mutate(ad0, kind, r):
             if not designs.is_leaf_def(d):
                 d['cables'].append({'name': 'extra_cable', 'width': 1, 'base': 0})
                 return ad
+    elif kind == 'cable-added-to-leaf':
+        for L, d in ds:
+            if designs.is_leaf_def(d):
+                d['cables'].append({'name': 'extra_cable', 'width': 1, 'base': 0})
+                return ad
+    elif kind == 'instance-added-to-leaf':
+        leaves = [(L2['name'], d2['name'], d2) for L2, d2 in _defs(ad) if designs.is_leaf_def(d2)]
+        if len(leaves) >= 2:
+            (l1, n1, d1), (l2, n2, d2) = leaves[0], leaves[1]
+            d2['instances'].append({'name': 'extra_inst', 'ref': [l1, n1], 'properties': {}})
+            return ad
     elif kind == 'cable-dropped':
         for L, d in ds:
             if len(d['cables']) > 1 or (d['cables'] and d['instances']):
@@ -338,7 +349,7 @@ MUTATIONS = ('port-direction', 'port-width-plus', 'port-width-minus', 'port-arra
              'move-port-pin-to-other-port', 'move-port-pin-to-other-bit', 'move-endpoint-to-other-wire', 'drop-connection', 'add-connection',
              'repoint-instance', 'property-value', 'property-removed', 'properties-dropped', 'property-added-to-copy', 'properties-added-to-copy-where-none',
              'library-added', 'library-dropped', 'definition-added', 'definition-dropped', 'port-added', 'port-dropped',
-             'cable-added', 'cable-dropped', 'instance-added', 'instance-dropped')
+             'cable-added', 'cable-dropped', 'instance-added', 'instance-dropped', 'cable-added-to-leaf', 'instance-added-to-leaf')
 
 
 # ------------------------------------------------------------------------------------------------ the case
